@@ -153,6 +153,10 @@ int main(int argc, char** argv) {
 #endif
                 }
                 if (!granted) break;
+                // a retrying client asks again although it holds the claim; the component says
+                // no - and that answer takes nothing away from the holder
+                if ((c + k) % 2 == 0 && p.in.Acquire(me) == Port::Result::Granted)
+                    violation("harness-component-granted-twice", k, k, 0);
                 for (int u = 0; u < uses; ++u) p.in.Use(me);
                 p.in.Free(me);
                 ++completed_cycles;
